@@ -31,14 +31,33 @@ violation; FPy disagreeing with both is a violation.  Zeros compare equal
 regardless of sign (titanfp does not implement the IEEE rule; the statement is
 about precision and rounding mode).
 
-Signatures name the direction, the kind of failure and its *cause* where the
-check can establish one mechanically:
-  cause=continuation-inside-annotation  the core means exactly what the program
-      means after every statement following a `with` block is moved into that
-      block (evaluated by the FPy interpreter on the moved program);
-  cause=annotation-props-not-Data       `from_fpcore` raised on a core object
-      whose `!` nodes carry bare strings (the printed text re-reads fine);
-  otherwise cause=unexplained plus the program family / node kinds.
+Signatures name the direction (compile / read / roundtrip), the kind of failure
+and its *cause* where the check can establish one mechanically (the cause is
+found by an experiment, not guessed from the program's looks):
+
+  continuation-inside-annotation   (compile) the core means exactly what the
+      program means after every statement following a `with` block is moved
+      into that block (FPy interpreter on the moved program), *and* the compiler
+      emits for the program the very text it emits for the moved program;
+  ref-index-order                  (compile) reversing the index list of every
+      multi-index `ref` in the core text makes the standard evaluator agree;
+  range-quotient-rounded-before-ceil  (compile) rounding the quotient of a
+      3-argument range length toPositive makes the standard evaluator agree;
+  annotation-props-not-Data        (read) from_fpcore raises AttributeError on a
+      core object whose `!` nodes carry bare strings (the text re-reads fine);
+  fresh-name-clash                 (read) re-reading the core with every bound
+      name given a suffix (so none looks like `<prefix><number>`) is right;
+  nested-annotation-not-inherited  (read) re-reading the core with every `!`
+      made to carry all inherited properties is right;
+  while-condition-hoisted          (read) the re-read function exceeds a
+      deterministic line budget and the core has a `while` whose condition
+      needs statements (let / if / !);
+  two causes joined by `+` when only both repairs together explain the case;
+  otherwise cause=unexplained and shape = the node kinds of the program.
+
+Wall-clock timers are only a backstop against a hanging worker (CAP note, never
+a verdict); divergence is decided by deterministic budgets (steps of the standard
+evaluator, executed lines of the re-read function).
 """
 
 from __future__ import annotations
@@ -46,6 +65,7 @@ from __future__ import annotations
 import itertools
 import math
 import signal
+import sys
 from contextlib import contextmanager
 from fractions import Fraction
 
@@ -66,7 +86,9 @@ from titanfp.fpbench import fpcparser
 from titanfp.arithmetic.mpmf import MPMF, Interpreter as TitanInterpreter
 from titanfp.titanic import ndarray as _ndarray
 
-TIME_LIMIT = 30.0        # seconds for one evaluation that normally takes < 1 ms
+TIME_LIMIT = 600.0       # wall-clock backstop for one step that normally takes milliseconds; it only
+                         # keeps a worker from hanging: a step it cuts is counted (CAP note), never judged
+LINE_BUDGET = 4000       # executed lines of generated code allowed to a re-read function (deterministic)
 
 
 class _Timeout(BaseException):
@@ -86,6 +108,40 @@ def time_limit(sec: float):
     finally:
         signal.setitimer(signal.ITIMER_REAL, 0)
         signal.signal(signal.SIGALRM, old)
+
+
+class _OverBudget(BaseException):
+    pass
+
+
+def call_with_line_budget(fn, args, budget: int = LINE_BUDGET):
+    """calls fn(*args) counting the lines executed in code generated by the FPy interpreter for a
+    function without source location (file name `<unknown>`: what from_fpcore produces); raises
+    _OverBudget beyond the budget.  Deterministic, unlike a timer."""
+    count = [0]
+
+    def local(frame, event, arg):
+        if event == 'line':
+            count[0] += 1
+            if count[0] > budget:
+                raise _OverBudget()
+        return local
+
+    def glob(frame, event, arg):
+        if frame.f_code.co_filename == '<unknown>':
+            return local
+        return None
+    old = sys.gettrace()
+    sys.settrace(glob)
+    try:
+        return fn(*args)
+    finally:
+        sys.settrace(old)
+        if count[0] <= budget and count[0] > MAX_LINES_SEEN[0]:
+            MAX_LINES_SEEN[0] = count[0]
+
+
+MAX_LINES_SEEN = [0]      # largest line count of a call that stayed within the budget (margin control)
 
 
 # ---------------------------------------------------------------------------
@@ -338,6 +394,58 @@ def alpha_renamed(text: str) -> str:
     return _sexp_str(sub(form))
 
 
+def annotations_explicit(text: str) -> str:
+    """the same core with every `!` carrying all the properties it inherits"""
+    form = REF.parse_sexp(text)[0]
+
+    def sub(e, inh):
+        if not isinstance(e, list) or not e:
+            return e
+        if e[0] == '!':
+            merged = dict(inh)
+            i = 1
+            while i < len(e) - 1:
+                merged[e[i]] = e[i + 1]
+                i += 2
+            out = ['!']
+            for k, v in merged.items():
+                out += [k, v]
+            return out + [sub(e[-1], merged)]
+        return [sub(x, inh) for x in e]
+    return _sexp_str(sub(form, {}))
+
+
+def range_quotient_up(text: str):
+    """the same core with the quotient of every 3-argument range length rounded toPositive
+    (so that `ceil` sees the quotient, not the quotient rounded under the inherited mode)"""
+    pat = '(! :precision integer (ceil (/ '
+    if pat not in text:
+        return None
+    return text.replace(pat, '(! :precision integer :round toPositive (ceil (/ ')
+
+
+def while_condition_needs_statements(text: str) -> bool:
+    """does the core have a `while` whose condition contains a binding / annotation / branch
+    (something a statement language must compute with statements before it can test it)?"""
+    form = REF.parse_sexp(text)[0]
+    heads = {'let', 'let*', '!', 'if', 'for', 'for*', 'tensor', 'tensor*', 'while', 'while*'}
+
+    def contains(e):
+        if isinstance(e, list) and e:
+            if isinstance(e[0], str) and e[0] in heads:
+                return True
+            return any(contains(x) for x in e)
+        return False
+
+    def walk(e):
+        if isinstance(e, list) and e:
+            if e[0] in ('while', 'while*') and len(e) == 4 and contains(e[1]):
+                return True
+            return any(walk(x) for x in e)
+        return False
+    return walk(form)
+
+
 def refs_reversed(text: str):
     """the same core with the index list of every multi-index `ref` reversed, or None
     if it has none"""
@@ -431,16 +539,16 @@ class Check(BaseCheck):
             plan['slice'] = dict(sizes=(4,), depth=3, kinds=allk, outer=['H_RTZ'], inner=['D_RNE'],
                                  returns=('pair',), rots=(0,), stride=40, offset=self.seed % 40)
         else:
-            outer = ['H_RTZ', 'S_RTP', 'D_RNE', 'INT']
-            inner = ['D_RNE', 'H_RTN', 'INT', 'S_RTZ', 'H_RNE']
+            outer = ['H_RTZ', 'S_RTP']
+            inner = ['D_RNE', 'H_RTN', 'INT']
             plan = dict(
                 full=dict(sizes=(1, 2, 3, 4), depth=3, kinds=allk, outer=outer, inner=inner,
                           returns=('pair',), rots=(0,), max_withs=2),
-                sw=dict(sizes=(2, 3, 4, 5, 6), depth=4, kinds=('S', 'W'), outer=names[:12:3] + ['INT'],
-                        inner=['D_RNE', 'H_RTN', 'INT', 'S_RTP', 'H_RTZ'], returns=('op', 'pair'), rots=(1, 4)),
-                small=dict(sizes=(1, 2, 3), depth=3, kinds=allk, outer=names, inner=names, returns=('op', 'var'),
+                sw=dict(sizes=(2, 3, 4, 5, 6), depth=4, kinds=('S', 'W'), outer=['H_RNE', 'S_RTN', 'D_RTZ'],
+                        inner=['D_RNE', 'H_RTP', 'INT'], returns=('op',), rots=(1,)),
+                small=dict(sizes=(1, 2), depth=3, kinds=allk, outer=names, inner=names, returns=('op', 'var'),
                            rots=(2,), max_withs=1),
-                pairs=[(o, i) for o in names for i in names if o != i],
+                pairs=[(o, i) for o in names for i in ('D_RNE', 'H_RTN', 'INT') if o != i],
                 xpairs=[(o, i) for o in names for i in names],
                 scalars=SCALARS_QUICK + SCALARS_MORE,
                 lists={k: LISTS[k] + LISTS_MORE.get(k, []) for k in LISTS},
@@ -493,9 +601,33 @@ class Check(BaseCheck):
     def shards(self):
         return [(k, self.NSHARDS) for k in range(self.NSHARDS)]
 
+    def selfcheck(self):
+        """vacuity canaries: both core evaluators give the hand-computed value of a binary16 /
+        toZero product (8401.64 * (1/3) = 2800.546..., spacing 2 there, so 2800), the annotation
+        applies to its expression only, and the judging path reports a planted miscompilation."""
+        text = '(FPCore (u v) (let ([a (! :precision binary16 :round toZero (* u v))]) (array a (* a v))))'
+        args = [8401.64, THIRD]
+        want = (X.fin(2800), X.fin(Fraction(float(2800) * THIRD)))
+        core = fpcparser.compile1(text)
+        rt = self.titan(core, args)
+        rm = self.refeval(text, args)
+        if rt[0] != 'ok' or not same(rt[1], want):
+            raise RuntimeError(f'titanfp canary: {rt}')
+        if rm[0] != 'ok' or not same(rm[1], want):
+            raise RuntimeError(f'reference evaluator canary: {rm}')
+        # a program whose continuation sits under the block's annotation must be told apart from
+        # the original by the interpreter itself (otherwise the inputs show nothing)
+        items = [G.W('H_RTZ', [G.S('a = u'), G.S('b = v'), G.W('D_RNE', [G.S('a = a + b')]), G.S('b = a * b'),
+                               G.S('return (a, b)')])]
+        P = Loaded(G.source('scalar', items), None)
+        Q = Loaded(G.source('scalar', G.sink(items)), None)
+        if same(P.call(args)[1], Q.call(args)[1]):
+            raise RuntimeError('canary: moving the continuation into the with block is invisible')
+        _reset_caches()
+
     # ---- one program -----------------------------------------------------
     def compile(self, loaded: Loaded):
-        """('ok', core, uic) | ('rejected', text) | ('crash', text)"""
+        """('ok', core, uic) | ('rejected', text) | ('crash', text) | ('timeout', '')"""
         last = None
         for uic in (False, True):
             try:
@@ -508,7 +640,7 @@ class Check(BaseCheck):
                     continue
                 return last
             except _Timeout:
-                return ('crash', 'timeout')
+                return ('timeout', '')
             except Exception as e:      # noqa: BLE001
                 return ('crash', f'{type(e).__name__}: {str(e)[:160]}')
         return last
@@ -545,7 +677,7 @@ class Check(BaseCheck):
             out.append(('object', 'ok', g))
             return out
         except _Timeout:
-            out.append(('object', 'raises', 'timeout'))
+            return [('object', 'timeout', '')]
         except Exception as e:          # noqa: BLE001
             out.append(('object', 'raises', f'{type(e).__name__}: {str(e)[:160]}'))
         try:
@@ -553,17 +685,20 @@ class Check(BaseCheck):
                 g = fp.Function.from_fpcore(fpcparser.compile1(text))
             out.append(('text', 'ok', g))
         except _Timeout:
-            out.append(('text', 'raises', 'timeout'))
+            out.append(('text', 'timeout', ''))
         except Exception as e:          # noqa: BLE001
             out.append(('text', 'raises', f'{type(e).__name__}: {str(e)[:160]}'))
         return out
 
     def call_fn(self, g, args):
+        """('ok', canon) | ('raises', text) | ('diverges', '') | ('timeout', '')"""
         a = [list(x) if isinstance(x, list) else x for x in args]
         try:
             with time_limit(TIME_LIMIT):
-                v = g(*a)
+                v = call_with_line_budget(g, a)
             return ('ok', canon_fpy(v))
+        except _OverBudget:
+            return ('diverges', f'more than {LINE_BUDGET} lines executed')
         except _Timeout:
             return ('timeout', '')
         except Exception as e:          # noqa: BLE001
@@ -589,6 +724,12 @@ class Check(BaseCheck):
             if collect is not None:
                 collect.append(({k: str(v) for k, v in signature.items()}, detail))
 
+        def cap(where):
+            r.count('backstop_timeouts')
+            note = f'CAP wall-clock backstop ({TIME_LIMIT:.0f} s) cut a step; not judged: {where}'
+            if note not in r.notes and len(r.notes) < 20:
+                r.notes.append(note)
+
         try:
             P = Loaded(src, nlist)
         except Exception as e:          # noqa: BLE001
@@ -603,6 +744,9 @@ class Check(BaseCheck):
         if comp[0] == 'rejected':
             r.count('compile_rejected')
             r.outcomes['compile:rejected:' + comp[1].split('(')[0][:60]] += 1
+            return
+        if comp[0] == 'timeout':
+            cap('FPCoreCompiler.compile')
             return
         if comp[0] == 'crash':
             # an accepted function on which the backend fails with something other than its
@@ -626,6 +770,8 @@ class Check(BaseCheck):
         for v_, st_, obj in readers:
             if st_ == 'ok':
                 g, via = obj, v_
+            elif st_ == 'timeout':
+                cap('Function.from_fpcore')
             else:
                 cause = 'unexplained'
                 if v_ == 'object' and 'AttributeError' in obj and _bare_string_props(core.e):
@@ -642,24 +788,46 @@ class Check(BaseCheck):
         def variant(name, text_):
             """sunk / flat program variants, loaded once"""
             if name not in lazy:
-                lazy[name] = Loaded(text_, nlist)
+                try:
+                    lazy[name] = Loaded(text_, nlist)
+                except Exception:       # noqa: BLE001 - a variant is only a measuring aid
+                    lazy[name] = None
             return lazy[name]
 
-        def renamed_reader():
-            """the re-read function of the alpha-renamed core (diagnosis only)"""
-            if 'g2' not in lazy:
+        def sunk_core_identical():
+            if 'sunk_core' not in lazy:
+                sk = variant('sunk', sunk_src) if sunk_src is not None else None
+                cs = self.compile(sk) if sk is not None else None
+                try:
+                    lazy['sunk_core'] = bool(cs is not None and cs[0] == 'ok' and core_text(cs[1]) == text)
+                except Exception:       # noqa: BLE001
+                    lazy['sunk_core'] = False
+            return lazy['sunk_core']
+
+        def repaired_reader(name):
+            """the re-read function of a rewritten core (diagnosis only): bound names made unlike
+            generated ones, annotations made explicit, or both"""
+            if name not in lazy:
+                t2 = text
+                if 'explicit' in name:
+                    t2 = annotations_explicit(t2)
+                if 'renamed' in name:
+                    t2 = alpha_renamed(t2)
                 try:
                     with time_limit(TIME_LIMIT):
-                        lazy['g2'] = fp.Function.from_fpcore(fpcparser.compile1(alpha_renamed(text)))
+                        lazy[name] = fp.Function.from_fpcore(fpcparser.compile1(t2))
                 except BaseException:       # noqa: BLE001
-                    lazy['g2'] = None
-            return lazy['g2']
+                    lazy[name] = None
+            return lazy[name]
 
         for args in argss:
             r.count('evaluations')
             r.count('states')
             rf = P.call(args)
             r.count('transitions')
+            if rf[0] == 'timeout':
+                cap('FPy interpreter on the original')
+                continue
             if rf[0] != 'ok':
                 r.count('precondition_false')
                 r.outcomes['fpy:' + rf[0]] += 1
@@ -669,35 +837,71 @@ class Check(BaseCheck):
 
             # vacuity measures
             if flat_src is not None:
-                rfl = variant('flat', flat_src).call(args)
+                fl = variant('flat', flat_src)
+                rfl = fl.call(args) if fl is not None else ('ok', vf)
                 if rfl[0] != 'ok' or not same(rfl[1], vf):
                     r.count('nontrivial')
             vq = None
             if sunk_src is not None:
-                rq = variant('sunk', sunk_src).call(args)
+                sk = variant('sunk', sunk_src)
+                rq = sk.call(args) if sk is not None else ('raises', '')
                 if rq[0] == 'ok':
                     vq = rq[1]
                     if not same(vq, vf):
                         r.count('scoping_visible')
 
             def cause_of(other):
-                """why does the core (or the re-read function) give `other` instead of vf?"""
-                if vq is not None and stmt_after and same(vq, other) and not same(vq, vf):
+                """why does the core (or the re-read function) give `other` instead of vf?  Named only
+                when `other` is what the moved program computes *and* the compiler emits for the program
+                the very core it emits for the moved program"""
+                if vq is not None and stmt_after and same(vq, other) and not same(vq, vf) \
+                        and sunk_core_identical():
                     return 'continuation-inside-annotation'
                 return 'unexplained'
 
-            def ref_order_explains():
-                """does reversing the index order of every multi-index ref repair the core?"""
-                t2 = refs_reversed(text)
-                if t2 is None:
-                    return False
-                r2 = self.refeval(t2, args)
-                return r2[0] == 'ok' and same(r2[1], vf)
+            def text_repair_cause():
+                """a named rewrite of the core text after which the standard evaluator gives what the
+                FPy program gives -- or, where the program has a statement after a `with` block, what
+                the program with its continuations moved into the blocks gives (two causes at once)"""
+                repairs = (('ref-index-order', 'nested-tuple-binding', refs_reversed),
+                           ('range-quotient-rounded-before-ceil', 'range-with-step', range_quotient_up))
+                cands = []
+                both = text
+                names, shapes = [], []
+                for name, shape, fn in repairs:
+                    t2 = fn(text)
+                    if t2 is None:
+                        continue
+                    cands.append((name, shape, t2))
+                    both = fn(both) or both
+                    names.append(name)
+                    shapes.append(shape)
+                if len(cands) > 1:
+                    cands.append(('+'.join(names), '+'.join(shapes), both))
+                targets = [(vf, '', '')]
+                if vq is not None and stmt_after and not same(vq, vf) and sunk_core_identical():
+                    targets.append((vq, '+continuation-inside-annotation', '+stmt-after-with'))
+                for want, csuf, ssuf in targets:
+                    for name, shape, t2 in cands:
+                        r2 = self.refeval(t2, args)
+                        if r2[0] == 'ok' and same(r2[1], want):
+                            return name + csuf, shape + ssuf
+                return 'unexplained', kinds
 
             # ---- meaning of the core --------------------------------------
+            rm = self.refeval(text, args)
+            if rm[0] == 'diverged':
+                # deterministic step budget of the standard evaluator: the core loops although the
+                # FPy program returned; titanfp and the re-read function are not run on it
+                violate({'direction': 'compile', 'kind': 'core does not terminate', 'shape': kinds,
+                         'cause': 'unexplained'}, args,
+                        f'\nargs {show_args(args)}\ncore: {text}\nFPy interpreter : {show(vf)}\n'
+                        f'FPCore standard : {rm[1]}\n')
+                continue
             rt = self.titan(core, args)
             r.count('transitions')
-            rm = self.refeval(text, args)
+            if rt[0] == 'timeout':
+                cap('titanfp')
             meaning = []            # admissible meanings, titanfp first
             if rt[0] == 'ok':
                 meaning.append(('titanfp', rt[1]))
@@ -743,9 +947,7 @@ class Check(BaseCheck):
                     cause = next((c for c in causes if c != 'unexplained'), 'unexplained')
                     shape = 'stmt-after-with'
                     if cause == 'unexplained':
-                        shape = kinds
-                        if ref_order_explains():
-                            cause, shape = 'ref-index-order', 'nested-tuple-binding'
+                        cause, shape = text_repair_cause()
                     violate({'direction': 'compile', 'kind': 'value', 'shape': shape, 'cause': cause},
                             args,
                             f'\nargs {show_args(args)}\ncore: {text}\n'
@@ -753,14 +955,12 @@ class Check(BaseCheck):
                             + ''.join(f'core by {nm:9s}: {show(val)}\n' for nm, val in meaning)
                             + (f'FPy on the program with continuations moved into their with block: {show(vq)}\n'
                                if vq is not None else ''))
-            elif rm[0] == 'malformed':
+            elif rm[0] == 'malformed' and rt[0] == 'refused':
                 # titanfp raises *and* the core breaks a rule of the standard (unbound variable, ref of
                 # a scalar, index out of range) although the FPy program returns: this is not titanfp
                 # declining a construct
                 compile_ok = False
-                cause, shape = 'unexplained', kinds
-                if ref_order_explains():
-                    cause, shape = 'ref-index-order', 'nested-tuple-binding'
+                cause, shape = text_repair_cause()
                 violate({'direction': 'compile', 'kind': 'core does not evaluate', 'shape': shape, 'cause': cause},
                         args,
                         f'\nargs {show_args(args)}\ncore: {text}\nFPy interpreter : {show(vf)}\n'
@@ -771,16 +971,32 @@ class Check(BaseCheck):
                 continue
             rg = self.call_fn(g, args)
             r.count('transitions')
+            if rg[0] == 'timeout':
+                cap('re-read function')
+                continue
+            good = [val for _, val in meaning] if meaning else [vf]
 
             def read_cause():
-                g2 = renamed_reader()
-                if g2 is None:
-                    return 'unexplained'
-                r2 = self.call_fn(g2, args)
-                if r2[0] != 'ok':
-                    return 'unexplained'
-                good = [val for _, val in meaning] if meaning else [vf]
-                return 'fresh-name-clash' if any(same(r2[1], val) for val in good) else 'unexplained'
+                """the smallest rewrite of the core after which the re-read function is right"""
+                if rg[0] == 'diverges' and while_condition_needs_statements(text):
+                    return 'while-condition-hoisted'
+                for name, cause in (('renamed', 'fresh-name-clash'),
+                                    ('explicit', 'nested-annotation-not-inherited'),
+                                    ('explicit+renamed', 'fresh-name-clash+nested-annotation-not-inherited')):
+                    g2 = repaired_reader(name)
+                    if g2 is None:
+                        continue
+                    r2 = self.call_fn(g2, args)
+                    if r2[0] == 'ok' and any(same(r2[1], val) for val in good):
+                        return cause
+                if while_condition_needs_statements(text):
+                    return 'while-condition-hoisted'
+                return 'unexplained'
+
+            read_shape = {'fresh-name-clash': 'generated-names',
+                          'nested-annotation-not-inherited': 'nested-annotation',
+                          'fresh-name-clash+nested-annotation-not-inherited': 'generated-names+nested-annotation',
+                          'while-condition-hoisted': 'while-condition-with-binding'}
 
             if rg[0] != 'ok':
                 # the re-read function fails where the original returns
@@ -789,9 +1005,9 @@ class Check(BaseCheck):
                     r.outcomes['read:fails-on-miscompiled-or-undefined-core'] += 1
                     continue
                 cause = read_cause()
-                violate({'direction': 'read', 'kind': 're-read function ' + (rg[1].split(':')[0] or rg[0]),
-                         'via': via, 'shape': kinds if cause == 'unexplained' else 'generated-names',
-                         'cause': cause}, args,
+                what = 'does not terminate' if rg[0] == 'diverges' else (rg[1].split(':')[0] or rg[0])
+                violate({'direction': 'read', 'kind': 're-read function ' + what,
+                         'via': via, 'shape': read_shape.get(cause, kinds), 'cause': cause}, args,
                         f'\nargs {show_args(args)}\ncore: {text}\nre-read function:\n{g.format()}\n'
                         f'FPy interpreter on the original: {show(vf)}; on the re-read function: {rg[0]} {rg[1]}')
                 continue
@@ -804,7 +1020,7 @@ class Check(BaseCheck):
                 else:
                     cause = read_cause()
                     violate({'direction': 'read', 'kind': 'value', 'via': via,
-                             'shape': kinds if cause == 'unexplained' else 'generated-names', 'cause': cause}, args,
+                             'shape': read_shape.get(cause, kinds), 'cause': cause}, args,
                             f'\nargs {show_args(args)}\ncore: {text}\nre-read function:\n{g.format()}\n'
                             + ''.join(f'core by {nm:9s}: {show(val)}\n' for nm, val in meaning)
                             + f're-read function : {show(vg)}\nFPy on original  : {show(vf)}')
@@ -816,10 +1032,10 @@ class Check(BaseCheck):
                     r.outcomes['roundtrip:agree'] += 1
                 else:
                     cause = cause_of(vg)
+                    shape = 'stmt-after-with'
                     if cause == 'unexplained':
                         cause = read_cause()
-                    shape = {'continuation-inside-annotation': 'stmt-after-with',
-                             'fresh-name-clash': 'generated-names'}.get(cause, kinds)
+                        shape = read_shape.get(cause, kinds)
                     violate({'direction': 'roundtrip', 'kind': 'value', 'via': via, 'shape': shape, 'cause': cause},
                             args,
                             f'\nargs {show_args(args)}\ncore: {text}\n(titanfp: {rt[0]} {rt[1]}; standard: {rm[0]} '
@@ -849,6 +1065,8 @@ class Check(BaseCheck):
             _reset_caches()
             if i % 997 == 5:
                 r.sample({'program': prog.key, 'src': src})
+        m = MAX_LINES_SEEN[0]
+        r.outcomes['reread-call max lines ' + ('<100' if m < 100 else '<1000' if m < 1000 else f'<{LINE_BUDGET}')] += 0
         return r
 
     # ---- replay ------------------------------------------------------------
